@@ -236,7 +236,21 @@ func specMarkedAbandoned(p *chunkPayloadData) bool {
 }
 
 //@ func Association.createSelectiveAckChunk
+//@   requires#queue a.payloadQueue != nil
+//@   requires rpqInv(a.payloadQueue)
+//@   requires rpqCount(a.payloadQueue)
+//@   requires#window-fits-16-bits a.payloadQueue.maxTSNOffset <= 65471
 //@   ensures#reports-the-current-cumulative-point{C05} result != nil && result.cumulativeTSNAck == a.payloadQueue.cumulativeTSN
+//@   ensures#gap-blocks-name-only-received-tsns{C05} forall k int, o uint32 :: 0 <= k && k < len(result.gapAckBlocks) &&
+//@      uint32(result.gapAckBlocks[k].start) <= o && o <= uint32(result.gapAckBlocks[k].end) ==> specRpqR(a.payloadQueue, o)
+//@   ensures#nothing-received-is-left-out-before-the-first-block{C05} forall o uint32 :: len(result.gapAckBlocks) > 0 && 1 <= o && o < uint32(result.gapAckBlocks[0].start) ==> !specRpqR(a.payloadQueue, o)
+//@   ensures#nothing-received-is-left-out-between-blocks{C05} forall k int, o uint32 :: 0 <= k && k < len(result.gapAckBlocks)-1 &&
+//@      uint32(result.gapAckBlocks[k].end) < o && o < uint32(result.gapAckBlocks[k+1].start) ==> !specRpqR(a.payloadQueue, o)
+//@   ensures#nothing-received-is-left-out-after-the-last-block{C05} forall o uint32 :: len(result.gapAckBlocks) > 0 &&
+//@      uint32(result.gapAckBlocks[len(result.gapAckBlocks)-1].end) < o ==> !specRpqR(a.payloadQueue, o)
+//@   ensures#no-block-means-nothing-received-above-the-cumulative-point{C05} forall o uint32 :: len(result.gapAckBlocks) == 0 ==> !specRpqR(a.payloadQueue, o)
+//@   ensures#receive-window-untouched{C05} a.payloadQueue.cumulativeTSN == old(a.payloadQueue.cumulativeTSN) && a.payloadQueue.tailTSN == old(a.payloadQueue.tailTSN)
+//@   ensures#receive-set-untouched{C05} forall t uint32 :: specRpqHas(a.payloadQueue, t) == old(specRpqHas(a.payloadQueue, t))
 //@   ensures#fits-the-16-bit-chunk-length{C12} 16+4*len(result.gapAckBlocks)+4*len(result.duplicateTSN) <= 65535
 
 //@ func Association.getDataPacketsToRetransmit
